@@ -184,8 +184,10 @@ Fixpoint bracket_loop (fuel : nat) (filenames neg : bool) (lit : lex) (c : N) (l
         let st1 := push_tok st BDash in
         if first then continue st1
         else
-          let a := llast l in let b := lpeek l in
-          if negb (b =? cRBRK) && (b <? a) then continue (set_def st1 (ERange a b)) else continue st1
+          let a := llast l in let b0 := lpeek l in
+          (* the range end may be an escaped rune: look through the backslash *)
+          let b := if b0 =? cBSL then match lrest l with _ :: x :: _ => x | _ => b0 end else b0 in
+          if negb (b0 =? cRBRK) && (b <? a) then continue (set_def st1 (ERange a b)) else continue st1
       else if c =? cRBRK then
         if bs_slash st then
           let t := cLBRK :: consumed lit l in SOk (quote_meta t) (OOk (lit_re t)) l
